@@ -486,14 +486,34 @@ def endpointOk (p : Path0) : M Unit := do
 
 /-- mirrors _instancewriteprovider.py: find_multins_association_ref_namespaces (after the fix: namespace names
     compare case-insensitively, first occurrence kept).  A NULL reference raises AttributeError. -/
-def multiNs (ps : List PropV) (target : Name) : Except PyExc (List Name) :=
-  (refProps ps).foldlM (fun acc p =>
+def multiNsAux (target : Name) : List PropV → List Name → Except PyExc (List Name)
+  | [], acc => .ok acc
+  | p :: ps, acc =>
     match p.val with
     | .ref q =>
       match q.ns with
       | none => .error .assertionError
-      | some n => if !n.isEmpty && !nameEq n target && !nmem n acc then .ok (acc ++ [n]) else .ok acc
-    | _ => .error .attributeError) []
+      | some n =>
+        if !n.isEmpty && !nameEq n target && !nmem n acc then multiNsAux target ps (acc ++ [n])
+        else multiNsAux target ps acc
+    | _ => .error .attributeError
+
+def multiNs (ps : List PropV) (target : Name) : Except PyExc (List Name) := multiNsAux target (refProps ps) []
+
+/-- the ORIGINAL find_multins_association_ref_namespaces: a Python `set` of the namespace strings that differ
+    (case-sensitively) from the target namespace.  Kept to state what the fix repairs
+    (`C11.case_sensitive_multins_not_atomic`). -/
+def multiNsOrigAux (target : Name) : List PropV → List Name → Except PyExc (List Name)
+  | [], acc => .ok acc
+  | p :: ps, acc =>
+    match p.val with
+    | .ref q =>
+      match q.ns with
+      | none => .error .assertionError
+      | some n =>
+        if !n.isEmpty && n != target && !acc.contains n then multiNsOrigAux target ps (acc ++ [n])
+        else multiNsOrigAux target ps acc
+    | _ => .error .attributeError
 
 def mkInstRec (ns : Name) (cls : Name) (keys : List (Name × Val)) (icls : Name) (props : List PropV) : InstRec :=
   { key := mkKey ns cls keys, path := { cls := cls, ns := some ns, keys := keys }, cls := icls, props := props }
@@ -516,7 +536,22 @@ def createMulti (nss : List Name) (orig : Name) (i : Inst) : M Unit := do
       else
         forM_ (fun n => inNs n (instCreateR (mkInstRec n cc.name keys i.cls i.props))) nss
 
-/-- mirrors _providerdispatcher.py: ProviderDispatcher.CreateInstance + InstanceWriteProvider.CreateInstance -/
+/-- `create_new_instance_path` + `add_new_instance` (ValueError of the store → CIM_ERR_ALREADY_EXISTS) -/
+def createSingle (ns : Name) (cc : ClassRec) (i : Inst) : M Unit := do
+  let keys ← liftE (keyBindings cc i.props)
+  inNs ns (fun r => match instCreateR (mkInstRec ns cc.name keys i.cls i.props) r with
+                    | .error .valueError => .error (cim cimErrAlreadyExists) | x => x)
+
+/-- mirrors _instancewriteprovider.py: InstanceWriteProvider.CreateInstance -/
+def createProvider (ns : Name) (cc : ClassRec) (i : Inst) : M Unit :=
+  if isAssoc cc then do
+    forM_ (fun p => match p.val with | .ref q => endpointOk q | _ => pure ()) (refProps i.props)
+    let others ← liftE (multiNs i.props ns)
+    if !others.isEmpty then createMulti (others ++ [ns]) ns i
+    else createSingle ns cc i
+  else createSingle ns cc i
+
+/-- mirrors _providerdispatcher.py: ProviderDispatcher.CreateInstance (then the default provider) -/
 def createInstance (ns : Name) (i0 : Inst) : M Unit := do
   validateNs ns
   let r ← getNs ns
@@ -524,21 +559,7 @@ def createInstance (ns : Name) (i0 : Inst) : M Unit := do
   | none => raise (cim cimErrInvalidClass)
   | some cc =>
     if !(i0.props.all (validProp cc)) then raise (cim cimErrInvalidParameter)
-    else do
-      let i : Inst := { i0 with props := adjustNames cc i0.props }
-      if isAssoc cc then
-        forM_ (fun p => match p.val with | .ref q => endpointOk q | _ => pure ()) (refProps i.props)
-      if isAssoc cc then
-        let others ← liftE (multiNs i.props ns)
-        if !others.isEmpty then createMulti (others ++ [ns]) ns i
-        else do
-          let keys ← liftE (keyBindings cc i.props)
-          inNs ns (fun r => match instCreateR (mkInstRec ns cc.name keys i.cls i.props) r with
-                            | .error .valueError => .error (cim cimErrAlreadyExists) | x => x)
-      else do
-        let keys ← liftE (keyBindings cc i.props)
-        inNs ns (fun r => match instCreateR (mkInstRec ns cc.name keys i.cls i.props) r with
-                          | .error .valueError => .error (cim cimErrAlreadyExists) | x => x)
+    else createProvider ns cc { i0 with props := adjustNames cc i0.props }
 
 /-- `CIMInstance.update(properties)`: replace existing (NocaseDict keeps the old key's position, new name),
     append new -/
@@ -547,8 +568,10 @@ def updateProps (old new : List PropV) : List PropV :=
     if (findPropV acc p.name).isSome then acc.map (fun x => if nameEq x.name p.name then p else x)
     else acc ++ [p]) old
 
-/-- mirrors _instancewriteprovider.py: modify_multi_namespace_instance -/
-def modifyMulti (nss : List Name) (rec : InstRec) : M Unit := do
+/-- mirrors _instancewriteprovider.py: modify_multi_namespace_instance.  The SAME instance object is stored
+    (without copy) in every namespace and its path is re-assigned in the loop, so that afterwards every stored
+    copy carries the path of the last namespace (= the request namespace `orig`); the dict keys keep theirs. -/
+def modifyMulti (nss : List Name) (orig : Name) (rec : InstRec) : M Unit := do
   let s ← getS
   if nss.any (fun n => match findNs s n with | some r => !hasClass r rec.cls | none => true) then
     raise (cim cimErrInvalidClass)
@@ -557,9 +580,35 @@ def modifyMulti (nss : List Name) (rec : InstRec) : M Unit := do
     raise (cim cimErrNotFound)
   else
     forM_ (fun n => inNs n (instUpdateR { rec with key := { rec.key with ns := lower n },
-                                                   path := { rec.path with ns := some n } })) nss
+                                                   path := { rec.path with ns := some orig } })) nss
 
-/-- mirrors ProviderDispatcher.ModifyInstance (PropertyList=None) + InstanceWriteProvider.ModifyInstance -/
+/-- does the modified value differ from the stored one (`prop.value != original_instance[pn]`) -/
+def valueChanged (stored : InstRec) (pv : PropV) : Bool :=
+  match findPropV stored.props pv.name with
+  | some sp => normVal sp.val != normVal pv.val
+  | none => true
+
+/-- the reference checks of InstanceWriteProvider.ModifyInstance for one reference property -/
+def modifyRefCheck (stored : InstRec) (pv : PropV) : M Unit :=
+  match pv.val with
+  | .null => raise (cim cimErrInvalidParameter)
+  | .ref q => if valueChanged stored pv then endpointOk q else pure ()
+  | _ => pure ()
+
+/-- mirrors _instancewriteprovider.py: InstanceWriteProvider.ModifyInstance -/
+def modifyProvider (ns : Name) (cc : ClassRec) (stored : InstRec) (props : List PropV) : M Unit :=
+  let rec' : InstRec := { stored with props := updateProps stored.props props }
+  if isAssoc cc then do
+    forM_ (modifyRefCheck stored) (refProps props)
+    let others ← liftE (multiNs rec'.props ns)
+    if !others.isEmpty then
+      -- the namespace appended last is the one of the STORED path (`original_instance.path.namespace`)
+      let sns := stored.path.ns.getD ns
+      modifyMulti (others ++ [sns]) sns rec'
+    else inNs ns (instUpdateR rec')
+  else inNs ns (instUpdateR rec')
+
+/-- mirrors ProviderDispatcher.ModifyInstance (PropertyList=None), then the default provider -/
 def modifyInstance (ns : Name) (p : Path) (i0 : Inst) : M Unit := do
   if !nameEq i0.cls p.cls then raise (cim cimErrInvalidParameter)
   else do
@@ -568,57 +617,43 @@ def modifyInstance (ns : Name) (p : Path) (i0 : Inst) : M Unit := do
     match findClass r i0.cls with
     | none => raise (cim cimErrInvalidClass)
     | some cc =>
-      let k := mkKey ns p.cls p.keys
-      match findInst r k with
+      match findInst r (mkKey ns p.cls p.keys) with
       | none => raise (cim cimErrNotFound)
       | some stored =>
         if !(i0.props.all (fun pv => validProp cc pv &&
               !((match findPropDecl cc pv.name with | some d => isKeyProp d | none => false) &&
-                (match findPropV stored.props pv.name with
-                 | some sp => normVal sp.val != normVal pv.val | none => true)))) then
+                valueChanged stored pv))) then
           raise (cim cimErrInvalidParameter)
-        else do
-          let props := adjustNames cc i0.props
-          if isAssoc cc then
-            forM_ (fun pv =>
-              match pv.val with
-              | .null => raise (cim cimErrInvalidParameter)
-              | .ref q =>
-                if (match findPropV stored.props pv.name with
-                    | some sp => normVal sp.val != normVal pv.val | none => true) then endpointOk q else pure ()
-              | _ => pure ()) (refProps props)
-          let merged := updateProps stored.props props
-          let rec' : InstRec := { stored with props := merged }
-          if isAssoc cc then
-            let others ← liftE (multiNs merged ns)
-            if !others.isEmpty then modifyMulti (others ++ [ns]) rec'
-            else inNs ns (instUpdateR rec')
-          else inNs ns (instUpdateR rec')
+        else modifyProvider ns cc stored (adjustNames cc i0.props)
 
-/-- mirrors ProviderDispatcher.DeleteInstance + InstanceWriteProvider.DeleteInstance (after the fix: existence in
-    all namespaces is verified before the first delete) -/
+/-- the multi-namespace branch of InstanceWriteProvider.DeleteInstance (after the fix: existence in all
+    namespaces is verified before the first delete) -/
+def deleteMulti (nss : List Name) (k : PKey) : M Unit := do
+  let s ← getS
+  if nss.any (fun n => (findNs s n).isNone) then raise (cim cimErrInvalidParameter)
+  else if nss.any (fun n => match findNs s n with
+                            | some r => !hasInst r { k with ns := lower n } | none => true) then
+    raise (cim cimErrNotFound)
+  else forM_ (fun n => inNs n (instDeleteR { k with ns := lower n })) nss
+
+/-- mirrors _instancewriteprovider.py: InstanceWriteProvider.DeleteInstance -/
+def deleteProvider (ns : Name) (cc : ClassRec) (stored : InstRec) (k : PKey) : M Unit :=
+  if !isAssoc cc then inNs ns (instDeleteR k)
+  else do
+    let others ← liftE (multiNs stored.props ns)
+    if others.isEmpty then inNs ns (instDeleteR k)
+    else deleteMulti (others ++ [ns]) k
+
+/-- mirrors ProviderDispatcher.DeleteInstance, then the default provider -/
 def deleteInstance (ns : Name) (p : Path) : M Unit := do
   validateNs ns
   let r ← getNs ns
   match findClass r p.cls with
   | none => raise (cim cimErrInvalidClass)
   | some cc =>
-    let k := mkKey ns p.cls p.keys
-    match findInst r k with
+    match findInst r (mkKey ns p.cls p.keys) with
     | none => raise (cim cimErrNotFound)
-    | some stored =>
-      if !isAssoc cc then inNs ns (instDeleteR k)
-      else do
-        let others ← liftE (multiNs stored.props ns)
-        if others.isEmpty then inNs ns (instDeleteR k)
-        else do
-          let nss := others ++ [ns]
-          let s ← getS
-          if nss.any (fun n => findNs s n |>.isNone) then raise (cim cimErrInvalidParameter)
-          else if nss.any (fun n => match findNs s n with
-                                    | some r => !hasInst r { k with ns := lower n } | none => true) then
-            raise (cim cimErrNotFound)
-          else forM_ (fun n => inNs n (instDeleteR { k with ns := lower n })) nss
+    | some stored => deleteProvider ns cc stored (mkKey ns p.cls p.keys)
 
 /-- mirrors _mainprovider.py: MainProvider.DeleteClass (after the fix: the deletion loop is guarded by
     snapshot/restore) -/
